@@ -144,12 +144,12 @@ PROPS = {
         'not_decided': ['zero-mean unit-variance white noise', 'pulse height equals sqrt(T0) numerically (libm)', 'linear glide value (p - prev)/fperiod'],
     },
     'C12': {
-        'technique': 'Verus contracts on the extracted text of MlpgMatrix::par and Engine::generator; Kani harnesses on MlpgGlobalVariance::apply_gv, Models::gv and the switch-expansion hole',
-        'level_text': 'unbounded proof that a stream without GV returns exactly solve() whatever the GV weight, that with GV the optimiser target is GV mean x weight on the solution of the unmodified system, and that gv_weight[i] reaches stream i only; bounded (T = 2, symbolic values): with no eligible frame the trajectory is returned unchanged',
-        'level_note': 'PARTIAL: "variance within 20% of the target for >= 100 eligible frames" and monotonicity in the weight are NOT decided (empirical convergence of a damped Newton iteration)',
+        'technique': 'Verus contracts on the extracted text of MlpgMatrix::par, MlpgGlobalVariance::apply_gv / parmgen and Engine::generator; Kani harnesses on MlpgGlobalVariance::apply_gv and the switch-expansion hole',
+        'level_text': 'unbounded proof that a stream without GV returns exactly solve() whatever the GV weight; that with GV the optimiser runs on the solution of the unmodified system with target GV mean x weight; that parmgen returns the trajectory untouched when no frame is eligible and otherwise applies conv_gv and exactly 5 next_step updates all driven by that same target and GV variance, each on freshly evaluated mean / variance / gradient (step sizes existentially quantified); and that gv_weight[i] reaches stream i only; bounded (T = 2, symbolic values): with no eligible frame the trajectory is returned unchanged',
+        'level_note': 'PARTIAL: "variance within 20% of the target for >= 100 eligible frames" and monotonicity in the weight are NOT decided (empirical convergence of a damped Newton iteration); conv_gv, calc_gv, calc_hmmobj_derivative and next_step are uninterpreted functions of their arguments',
         'verus': ['engine', 'gvpar'],
         'assumptions': [], 'trusted_base': [],
-        'not_decided': ['variance within 20% of gv_weight x GV mean', 'monotone growth with the weight', 'Models::gv switch from gv_off_context'],
+        'not_decided': ['variance within 20% of gv_weight x GV mean', 'monotone growth with the weight', 'Models::gv switch from gv_off_context', 'numerics of conv_gv / calc_gv / next_step (which frames they rescale)', 'step-size schedule of parmgen'],
     },
     'C14': {
         'technique': 'Verus contract on the extracted text of MelCepstrum::postfilter_mcp (b-domain, floats and mc2b/b2mc/b2en uninterpreted) and on Engine::generator; Kani harnesses for the no-op cases; native contract on Condition::set_beta',
